@@ -102,7 +102,7 @@ func (c *vhFailingCallback) check(err error, n int) {
 }
 
 func vhNewFailingCallback(n int) *vhFailingCallback {
-	return &vhFailingCallback{goroutines: 1 + vChoice("goroutines", 2), failAt: vChoice("failat", n+1), sticky: vBool("sticky")}
+	return &vhFailingCallback{goroutines: 1 + vChoice("goroutines", 2+vTier()), failAt: vChoice("failat", n+1), sticky: vBool("sticky")}
 }
 
 func vhC28Points(n int) []Feature {
@@ -115,7 +115,7 @@ func vhC28Points(n int) []Feature {
 
 // MemoryFeatureSource.Read over 4 features.
 //
-//vh:steps=8000000 concurrent sched=400 preempt=1 preempt.thorough=2
+//vh:steps=8000000 concurrent sched=400 preempt=1 preempt.thorough=2 paths.thorough=1000000
 func VH_C28_MemoryFeatureSource() {
 	vhInstallContext()
 	const n = 4
@@ -128,7 +128,7 @@ func VH_C28_MemoryFeatureSource() {
 // EachFeature of a BasicMutableWorld (EachFeature -> eachIngestFeature ->
 // feedFeatures, errgroup) over 4 features.
 //
-//vh:steps=8000000 concurrent sched=400 preempt=1 preempt.thorough=2
+//vh:steps=8000000 concurrent sched=400 preempt=1 preempt.thorough=2 paths.thorough=1000000
 func VH_C28_EachFeature() {
 	vhInstallContext()
 	const n = 4
@@ -143,7 +143,7 @@ func VH_C28_EachFeature() {
 
 // ModifiedTags.EachModifiedTag over 3 modified tags of 2 features.
 //
-//vh:steps=8000000 concurrent sched=400 preempt=1 preempt.thorough=2
+//vh:steps=8000000 concurrent sched=400 preempt=1 preempt.thorough=2 paths.thorough=1000000
 func VH_C28_EachModifiedTag() {
 	vhInstallContext()
 	const n = 3
